@@ -374,7 +374,7 @@ fn v_outcome(o: &Outcome) -> V {
                 V::n(*status as u64),
                 match body {
                     None => V::t0("dropped"),
-                    Some(Ok(b)) => V::T("ok", vec![V::h(b)]),
+                    Some(Ok(b)) => v_body(b),
                     Some(Err(c)) => V::T("err", vec![V::h(c)]),
                 },
             ],
@@ -677,6 +677,26 @@ fn oracle(sc: &Scenario, r: &RunOut) -> Result<(), String> {
 
 // ------------------------------------------------------------------ Gallina rendering
 
+/// byte string as a Gallina term; long strings are split (a string literal of 10^4.. characters
+/// overflows coqc's stack)
+fn coq_hx(hex: &str) -> String {
+    if hex.len() <= 4000 {
+        return format!("hx \"{}\"", hex);
+    }
+    let parts: Vec<String> = hex.as_bytes().chunks(4000).map(|c| format!("hx \"{}\"", std::str::from_utf8(c).unwrap())).collect();
+    parts.join(" ++ ")
+}
+
+/// bodies longer than 1 KiB are compared by length, a polynomial digest and their first 32 bytes
+fn v_body(b: &[u8]) -> V {
+    if b.len() <= 1024 {
+        V::T("ok", vec![V::h(b)])
+    } else {
+        let d = b.iter().fold(0u64, |d, x| (d * 31 + *x as u64) % 1_000_000_007);
+        V::T("okbig", vec![V::us(b.len()), V::n(d), V::h(&b[..32])])
+    }
+}
+
 fn coq_case(sc: &Scenario, f9: bool, f17: bool) -> String {
     let reqs = coq_list(&sc.reqs, |r| format!("mk_req {} {} {}", r.a, coq_bool(r.head), coq_bool(r.read)));
     let conns = coq_list(&sc.conns, |a| {
@@ -685,7 +705,7 @@ fn coq_case(sc: &Scenario, f9: bool, f17: bool) -> String {
                 .iter()
                 .filter_map(|e| match e {
                     Ev::W | Ev::G => Some("EW".to_string()),
-                    Ev::D { hex } if !hex.is_empty() => Some(format!("ED (hx \"{}\")", hex)),
+                    Ev::D { hex } if !hex.is_empty() => Some(format!("ED ({})", coq_hx(hex))),
                     Ev::D { .. } | Ev::P => None,
                     Ev::C => Some("EC".to_string()),
                 })
